@@ -1419,6 +1419,9 @@ class Ctx:
     def ex_Constant(self, e):
         return e.value
 
+    def ex__Lit(self, e):
+        return e.v
+
     def ex_Name(self, e):
         f = self.fr
         if self.vm.global_vals:
@@ -2865,5 +2868,48 @@ def m_chain(ctx, *its):
 
 import collections as _collections
 import itertools as _itertools
+import operator as _operator
+import functools as _functools
+
+
+def _m_binop(node):
+    return lambda ctx, a, b: ctx.binop(node, a, b)
+
+
+def m_op_invert(ctx, a):
+    return ctx.ex_UnaryOp(ast.UnaryOp(op=ast.Invert(), operand=_Lit(a)))
+
+
+def m_op_not(ctx, a):
+    return mk_bool(b_not(ctx.truth(a)))
+
+
+class _Lit(ast.AST):
+    """an already evaluated value standing where the evaluator expects an expression node"""
+    _fields = ()
+
+    def __init__(self, v):
+        self.v = v
+
+
+def m_reduce(ctx, fn, it, *init):
+    """functools.reduce over a sequence whose elements all exist (guarded elements are not modelled)"""
+    plan = [(g, v) for g, v in ctx.iter_plan(it) if g is not False]
+    if not all(g is True for g, _ in plan):
+        raise Unsupported('reduce over a sequence with symbolic membership')
+    vals = [v for _, v in plan]
+    if init:
+        acc = init[0]
+    elif vals:
+        acc, vals = vals[0], vals[1:]
+    else:
+        ctx.raise_(True, TypeError('reduce() of empty iterable with no initial value'))
+        return None
+    for v in vals:
+        acc = ctx.call(fn, [acc, v], {})
+    return acc
+
 MODELS = {_itertools.product: m_product, _itertools.chain: m_chain, _collections.deque: m_deque, enumerate: m_enumerate, zip: m_zip, reversed: m_reversed, weakref.ref: m_weakref_ref, weakref.WeakValueDictionary: m_dict, weakref.WeakKeyDictionary: m_dict, any: m_any, all: m_all, bool: m_bool, max: m_max, tuple: m_tuple, frozenset: m_frozenset, weakref.WeakSet: m_set, id: m_id, set: m_set, dict: m_dict, list: m_list, len: m_len, iter: m_iter, next: m_next, min: m_min,
+          _operator.and_: _m_binop(ast.BitAnd()), _operator.or_: _m_binop(ast.BitOr()), _operator.xor: _m_binop(ast.BitXor()), _operator.add: _m_binop(ast.Add()), _operator.sub: _m_binop(ast.Sub()),
+          _operator.invert: m_op_invert, _operator.inv: m_op_invert, _operator.not_: m_op_not, _functools.reduce: m_reduce,
           isinstance: m_isinstance, getattr: m_getattr, hasattr: m_hasattr, super: m_super, range: m_range, sum: m_sum, str: m_str, sorted: m_sorted}
